@@ -1,3 +1,4 @@
+import inspect
 import operator
 from functools import wraps
 from typing import Any, Callable, Dict, List, Optional, Type, Union
@@ -301,6 +302,12 @@ class AstToDjangoQVisitor(visitor.NodeVisitor):
                 kwargs[arg.name.name] = arg.param
             else:
                 args.append(arg)
+
+        try:
+            inspect.signature(q_gen).bind(*args, **kwargs)
+        except TypeError:
+            # E.g. `length(x=name)`: a named parameter the function does not have.
+            raise ex.ArgumentTypeException(func_name)
 
         res = q_gen(*args, **kwargs)
         return res
